@@ -221,6 +221,7 @@ inductive ATy
   | int (t : ITy) | f32 | f64 | bool | utf8 | largeUtf8 | binary | largeBinary | fixed (w : Nat)
   | date32 | ts (utc : Bool) | time64 | dur | dec | dict
   | list (e : ATy) | map (k v : ATy) | struct (fs : AFields)
+  | other (id : Nat)      -- any Arrow type the derivation never produces (only a peer's batch can carry it)
 inductive AFields
   | nil
   | cons (name : BStr) (t : ATy) (nullable : Bool) (rest : AFields)
@@ -655,11 +656,18 @@ def decodeLeafInt (t : GoTy) (wire : ITy) (w : Int) : Except Err Val :=
   | .prim .dur => .ok (.dur (decodeInt i64 wire w))   -- kind Int64: SetInt works on a Duration field
   | _ => .error .decode                                -- reflect panics on a kind mismatch
 
+/-- Is the slot null? (`col.IsNull(idx)`) -/
+def Cell.isNull : Cell → Bool
+  | .null => true
+  | _ => false
+
 mutual
-/-- `setFieldFromArrow(field, fieldType, col, idx, …)` on a non-null slot; `t` is the field type
-(a pointer type is dereferenced once, the result is implicitly re-wrapped). -/
-def decodeNN (t : GoTy) : Cell → Except Err Val
-  | .null => .error .decode
+/-- A column / list element / map item / struct child read into a field of type `t`: the callers'
+`IsNull` check (null → the field keeps its zero value) followed by
+`setFieldFromArrow(field, fieldType, col, idx, …)`, which switches on the array type; a pointer
+type is dereferenced once and the result implicitly re-wrapped. -/
+def decode (t : GoTy) : Cell → Except Err Val
+  | .null => .ok (zeroVal t)
   | .int w v => decodeLeafInt (derefTy t) w v
   | .f32 b => match derefTy t with
     | .prim .f32 => .ok (.f32 b)
@@ -715,46 +723,37 @@ def decodeNN (t : GoTy) : Cell → Except Err Val
 def decodeElems (et : GoTy) : Cells → Except Err Vals
   | .nil => .ok .nil
   | .cons c r =>
-    match (match c with
-      | .null => Except.ok (zeroVal et)
-      | c => decodeNN et c) with
+    match decode et c with
     | .error e => .error e
     | .ok v => match decodeElems et r with
       | .error e => .error e
       | .ok vs => .ok (.cons v vs)
-/-- `setMapField`: keys are decoded unconditionally; a null item leaves the zero value. -/
+/-- `setMapField`: a null item leaves the zero value. (Keys are decoded without a null check in
+the Go code; an Arrow map key is never null, so the difference is not observable.) -/
 def decodeKVs (kt vt : GoTy) : CKVs → Except Err KVs
   | .nil => .ok .nil
   | .cons k v r =>
-    match decodeNN kt k with
+    match decode kt k with
     | .error e => .error e
     | .ok kv =>
-      match (match v with
-        | .null => Except.ok (zeroVal vt)
-        | v => decodeNN vt v) with
+      match decode vt v with
       | .error e => .error e
       | .ok vv => match decodeKVs kt vt r with
         | .error e => .error e
         | .ok rest => .ok (.cons kv vv rest)
 /-- `setStructField`: walk the ARROW children, find each one's Go field; unknown children are
-skipped, null children leave the zero value. -/
+skipped, null children leave the field as it is. -/
 def decodeChildren (gfs : GoFields) : CFields → SFields → Except Err SFields
   | .nil, acc => .ok acc
   | .cons name c r, acc =>
     match gfs.find name with
     | none => decodeChildren gfs r acc
     | some (i, ft) =>
-      match c with
-      | .null => decodeChildren gfs r acc
-      | c => match decodeNN ft c with
+      if c.isNull then decodeChildren gfs r acc
+      else match decode ft c with
         | .error e => .error e
         | .ok v => decodeChildren gfs r (acc.setAt i v)
 end
-
-/-- A column / child / element: null → the zero value, else `setFieldFromArrow`. -/
-def decode (t : GoTy) : Cell → Except Err Val
-  | .null => .ok (zeroVal t)
-  | c => decodeNN t c
 
 /-! ## Top level: `serializeVgirpcStruct` and the value part of `deserializeParams` -/
 
@@ -790,5 +789,24 @@ def decodeTop : GoFields → CFields → Except Err SFields
     else match decodeTop r cfs with
       | .error e => .error e
       | .ok vs => .ok (.cons tag atag (zeroVal t) vs)
+
+end Vgi.Values
+
+namespace Vgi.Values
+
+/-! ## Per-type memoization (`types_cache.go`: `describeStruct` over `structDescCache`) -/
+
+/-- `describeStruct`: return the memoized description of type key `k`, computing and storing it
+on first use. `build` is the uncached walk (`buildStructDesc`); the cache is a `sync.Map` keyed by
+the `reflect.Type`, here an association list keyed by any type with decidable equality. -/
+def describe {κ δ : Type} [DecidableEq κ] (build : κ → δ) (cache : List (κ × δ)) (k : κ) : List (κ × δ) × δ :=
+  match cache.find? (fun e => e.1 = k) with
+  | some e => (cache, e.2)
+  | none => ((k, build k) :: cache, build k)
+
+/-- A history of `describeStruct` calls from some cache: the description each call returned. -/
+def describeAll {κ δ : Type} [DecidableEq κ] (build : κ → δ) : List (κ × δ) → List κ → List δ
+  | _, [] => []
+  | cache, k :: ks => (describe build cache k).2 :: describeAll build (describe build cache k).1 ks
 
 end Vgi.Values
